@@ -118,6 +118,10 @@ func (t *Tape) Range(stream string, lo, hi int) int {
 // IsReplay reports whether the tape replays recorded draws.
 func (t *Tape) IsReplay() bool { return t.replay }
 
+// Input returns the recorded arrays a replay tape draws from (nil in
+// generation mode).
+func (t *Tape) Input() map[string][]int { return t.in }
+
 // Recorded returns a copy of everything drawn so far.
 func (t *Tape) Recorded() map[string][]int {
 	t.mu.Lock()
